@@ -234,6 +234,11 @@ def _gen_ops(rng, tier, profile, n_geos):
     n_steps = rng.randrange(6, 17 if tier == 'quick' else 31)
     w = {'q': 30, 'dwc': 8, 'list_t': 6, 'list_c': 6, 'open': 10, 'step': 22,
          'close': 2, 'exhaustive': 5, 'greedy': 8, 'results': 14}
+    if rng.random() < 0.15:
+      # listing-heavy: several listings in flight, stepped far, crossed by
+      # other listings and searches
+      w.update({'q': 8, 'open': 25, 'step': 45, 'list_c': 12, 'list_t': 8,
+                'exhaustive': 8, 'close': 1})
     enabled = set()
     if profile == 'faults':
       for f in FAULT_KINDS:
@@ -303,7 +308,7 @@ def _gen_ops(rng, tier, profile, n_geos):
         op['t'] = _picks(rng, rng.choice((1, 1, 2)))
     elif kind == 'step':
       op['lid'] = rng.choice(open_lids)
-      op['k'] = rng.choice((1, 1, 2, 3, 5))
+      op['k'] = rng.choice((1, 1, 2, 3, 5, 8))
     elif kind in ('close', 'abandon'):
       op['lid'] = rng.choice(open_lids)
       open_lids.remove(op['lid'])
@@ -348,6 +353,17 @@ def generate(rng, tier, profile='faultfree'):
   par = _gen_par(rng, panel, profile, stress and not wide)
   if wide:
     par.pop('n_geos_max', None)
+  sibling_par = None
+  if profile != 'c14' and rng.random() < 0.04:
+    # an earlier tenant of the process with "hash twin" levels: parameters
+    # that differ but hash alike (see core.HASH_TWINS); it is built and
+    # queried BEFORE the object under test exists
+    a, b = rng.choice(core.HASH_TWINS)
+    which = rng.choice(('sig_level', 'power_level'))
+    if rng.random() < 0.5:
+      a, b = b, a
+    par[which] = a
+    sibling_par = {which: b}
   ops, enabled = _gen_ops(rng, tier, profile, len(panel['geos']))
   if wide:
     # both kinds of search on the one object, whatever else happens
@@ -358,6 +374,7 @@ def generate(rng, tier, profile='faultfree'):
           'focus': 'C14' if profile == 'c14' else 'C10',
           'panel': panel, 'elig': elig, 'par': par,
           'rng0': rng.randrange(2**31), 'faults_enabled': enabled,
+          'pre_sibling': sibling_par,
           'max_designs': 320 if tier == 'quick' else 1500,
           'ops': ops}
 
@@ -427,12 +444,18 @@ class Env:
     df['response'] = df['response'] * (1.37 + variant) + 0.5 * variant
     return df
 
-  def build_sibling(self, variant):
+  def build_sibling(self, variant, par_overrides=None, same_data=False):
     geoeligibility, tbrmatchedmarkets, tbrmmdata = self.mods[:3]
     edf = self.elig_frame()
     elig = None if edf is None else geoeligibility.GeoEligibility(edf)
-    data = tbrmmdata.TBRMMData(self.sibling_frame(variant), 'response', elig)
-    return tbrmatchedmarkets.TBRMatchedMarkets(data, self.parameters())
+    frame = self.frame() if same_data else self.sibling_frame(variant)
+    data = tbrmmdata.TBRMMData(frame, 'response', elig)
+    par = self.parameters()
+    if par_overrides:
+      kwargs = dict(self._par_kwargs)
+      kwargs.update(par_overrides)
+      par = self.mods[3].TBRMMDesignParameters(**kwargs)
+    return tbrmatchedmarkets.TBRMatchedMarkets(data, par)
 
   def elig_frame(self):
     return None if self._elig0 is None else self._elig0.copy(deep=True)
@@ -630,8 +653,18 @@ def execute(desc):
       memo[k] = with_ref_rng(compute)
     return memo[k]
 
-  # ---- build the object under test ----------------------------------------
+  # ---- an earlier tenant of the process (optional) -------------------------
   rng.seed(desc.get('rng0', 0))
+  if desc.get('pre_sibling'):
+    try:
+      early = env.build_sibling(0, desc['pre_sibling'], same_data=True)
+      early.geos_within_constraints  # pylint: disable=pointless-statement
+      early.count_max_designs()
+      del early
+      fault('earlier_tenant_with_hash_twin_parameters')
+    except Exception:  # pylint: disable=broad-except
+      pass
+  # ---- build the object under test ----------------------------------------
   try:
     mm, df_in, elig_in, par = env.build()
   except Exception as e:  # pylint: disable=broad-except
@@ -1187,6 +1220,10 @@ def normalize(desc):
 
 def simplifications(desc):
   """Config passes: smaller / plainer inputs, fewer faults."""
+  if desc.get('pre_sibling'):
+    d = copy.deepcopy(desc)
+    d['pre_sibling'] = None
+    yield d
   if desc.get('elig') is not None:
     d = copy.deepcopy(desc)
     d['elig'] = None
